@@ -136,7 +136,7 @@ def body(ctx):
         key = t.cpp("unit")
         if key in seen or any(abs(e.numerator) > 40 or e.denominator > 12 for e in list(t.dim().values()) + list(t.magm().values())):
             continue
-        if len(trees.product_label(trees.structure(t, marker))) > 200:
+        if len(trees.label_text(t, marker)) > 200:
             continue
         seen.add(key)
         ts.append(t)
@@ -172,7 +172,7 @@ def body(ctx):
             size, raw = extract.text_of(lv)
             nob += 1
             text = raw[:-1].decode("latin-1")
-            want = trees.product_label(trees.structure(t, marker))
+            want = trees.label_text(t, marker)
             if raw[-1:] != b"\0" or b"\0" in raw[:-1] or sv[2] != size or size != len(text) + 1:
                 ctx.violation(key + "|size", "unit_label(%s): array size %d, sizeof %d, text %r: not a NUL-terminated string of length size-1" % (cppexpr(t), size, sv[2], text))
                 continue
@@ -334,7 +334,7 @@ def body(ctx):
     ctx.coverage.update(dict(
         evaluations=nob + len(items) * len(configs) + ns[0], distinct_nontrivial=nob + len(items) + ns[0],
         rule="label text and sizeof of seeded unit expression trees (labelled and unlabelled atoms, integer / rational / irrational scalings, negative and fractional exponents, prefixes, nested products) extracted from the constant evaluator and compared, up to the order of factors, with the documented grammar; re-asserted on both compilers; own-label rule over every unit-like record of au/units (S) with derived-without-label units; prefix x unit labels; common-unit EQUIV labels; IToA/UIToA on boundary and seeded 64-bit integers; streaming wrappers per (unit, 10 reps, quantity|point): resolved callee sequence in the IR",
-        samples=[dict(tree=cppexpr(ts[0]), model_label=trees.product_label(trees.structure(ts[0], marker)))], exhaustive=False,
+        samples=[dict(tree=cppexpr(ts[0]), model_label=trees.label_text(ts[0], marker))], exhaustive=False,
         trees=len(ts), label_obligations=nob, label_discharged=ndis, unit_like_records=len(recs), marker=marker,
         w_items=len(items), w_mismatches=nbad, streaming_wrappers=ns[0], streaming_ok=ns[1], configs=[c.name for c in configs], engine_stats=stats))
     ctx.assumptions += ["the order of factors inside a product label is not part of the grammar: labels are compared after sorting factors",
